@@ -330,7 +330,19 @@ class CallMixin:
             for p, b in zip(fn['freevars'], fv.bindings):
                 if isinstance(b, PtrV) and b.kind == 'cell' and not b.path:
                     extra_cells[p['name']] = (b.a, self.ty.elem(p['type']))
-        return self.apply_contract_env(ctx, ins, st, spec, names, rnames, rtypes, label, extra_cells)
+        pkg = None
+        if fn is not None:
+            pkg = self.prog.short(fullname)[0]
+            # ghost variables of the callee's contract that this function does not declare itself: per-callee ghost
+            # state, unknown here (and havocked by the callee's modifies)
+            for g, sort in spec.ghost:
+                if g not in self.ghost_cells and not (extra_cells and g in extra_cells):
+                    cid = ('fghost', spec.name, g)
+                    if cid not in st.cells:
+                        st.cells[cid] = T.V(T.fresh_name('FG_' + g), SORTS.get(sort, T.INT))
+                    extra_cells = dict(extra_cells or {})
+                    extra_cells[g] = (cid, None)
+        return self.apply_contract_env(ctx, ins, st, spec, names, rnames, rtypes, label, extra_cells, pkg=pkg)
 
     def apply_contract(self, ctx, ins, st, spec, recv, iface, args, res_types, label):
         names = {'self': (recv, iface)}
@@ -355,7 +367,8 @@ class CallMixin:
             names[n] = (a, t)
         return self.apply_contract_env(ctx, ins, st, ps, names, ps.results or [], res_types, ps.name)
 
-    def apply_contract_env(self, ctx, ins, st, spec, names, rnames, rtypes, label, extra_cells=None):
+    def apply_contract_env(self, ctx, ins, st, spec, names, rnames, rtypes, label, extra_cells=None, pkg=None):
+        pkg = pkg or self.pkg
         cn = self.cellnames_for(ctx, ctx.get('block'))
         if extra_cells:
             cn = dict(cn)
@@ -363,7 +376,7 @@ class CallMixin:
         allnames = dict(self.base_names) if spec.kind == 'param' else {}
         allnames.update(names)
         pc_ = (spec.kind == 'param')     # in-function specs speak about the current values of the function's variables
-        env = Env(allnames, st, self.entry_state, cn, self.pkg, prefer_cells=pc_)
+        env = Env(allnames, st, self.entry_state, cn, pkg, prefer_cells=pc_)
         if pc_:
             env.bound = set(names)
         pos = ins.get('pos', '')
@@ -395,7 +408,7 @@ class CallMixin:
             rn.setdefault('err', (vals[-1], rtypes[-1]))
         n2 = dict(allnames)
         n2.update(rn)
-        env2 = Env(n2, st, pre, cn, self.pkg, prefer_cells=pc_)
+        env2 = Env(n2, st, pre, cn, pkg, prefer_cells=pc_)
         if pc_:
             env2.bound = set(names) | set(rn)
         for c in spec.ensures:
